@@ -118,27 +118,41 @@ func jvalTerm(data []byte) (string, bool) {
 
 // ---------- element universes ----------
 
-type dom[E comparable] struct {
-	tname string
-	univ  []E
-	ids   map[E]int64
-	desc  []string
-	zero  E
+// Elements are identified by their deep content: the number of a value is the place, in the universe, of the value with
+// the same canonical JSON text (so a decoded copy of a struct / slice / pointee / map gets the number of the original,
+// and a stale, merged or aliased value gets the number of another class, or -7 when it is in no class at all).
+type dom[E any] struct {
+	tname   string
+	univ    []E
+	ids     map[string]int64
+	desc    []string
+	zeroKey string
+	scalar  bool // int / string: banytostring.ToString is part of the codec (member names of hashmap)
 }
 
-func newDom[E comparable](tname string, univ []E) *dom[E] {
-	d := &dom[E]{tname: tname, univ: univ, ids: map[E]int64{}}
+func contentKey[E any](x E) string {
+	b, err := json.Marshal(x)
+	if err != nil {
+		return "!" + err.Error()
+	}
+	return string(b)
+}
+
+func newDom[E any](tname string, univ []E) *dom[E] {
+	var zero E
+	d := &dom[E]{tname: tname, univ: univ, ids: map[string]int64{}, zeroKey: contentKey(zero), scalar: true}
 	for i, k := range univ {
-		d.ids[k] = int64(i)
+		d.ids[contentKey(k)] = int64(i)
 		d.desc = append(d.desc, fmt.Sprintf("%#v", k))
 	}
 	return d
 }
 func (d *dom[E]) id(x E) int64 {
-	if v, ok := d.ids[x]; ok {
+	k := contentKey(x)
+	if v, ok := d.ids[k]; ok {
 		return v
 	}
-	if x == d.zero {
+	if k == d.zeroKey {
 		return -1
 	}
 	return -7
@@ -163,7 +177,11 @@ func (d *dom[E]) codec(wrap func(E) interface{}) string {
 		t, _ := jvalTerm(b)
 		cj = append(cj, t)
 		ct = append(ct, vhlib.Bytes(b))
-		cs = append(cs, vhlib.Bytes([]byte(banytostring.ToString(x))))
+		if d.scalar {
+			cs = append(cs, vhlib.Bytes([]byte(banytostring.ToString(x))))
+		} else {
+			cs = append(cs, vhlib.Bytes(b)) // ToString is never applied to values: keep the table injective
+		}
 	}
 	return fmt.Sprintf("{| cj := %s; ct := %s; cs := %s |}", vhlib.List(cj), vhlib.List(ct), vhlib.List(cs))
 }
@@ -226,7 +244,7 @@ type seqInst[E any] struct {
 	unmarshal        func([]byte) error
 	rep              func() string
 }
-type seqKind[E comparable] struct {
+type seqKind[E any] struct {
 	name, path string
 	disc       func(cap int) string
 	jrev, ring bool
@@ -264,7 +282,7 @@ type setAPI[E any] interface {
 	Values() []E
 }
 
-func repOf[E comparable](d *dom[E], c interface{}) func() string {
+func repOf[E any](d *dom[E], c interface{}) func() string {
 	return func() string {
 		if x, ok := c.(interface{ VerifLenCap() (int, int, int) }); ok {
 			l, cp, sz := x.VerifLenCap()
@@ -279,30 +297,31 @@ func repOf[E comparable](d *dom[E], c interface{}) func() string {
 		return "RNone"
 	}
 }
-func fromList[E comparable](d *dom[E], l listAPI[E]) *seqInst[E] {
+func fromList[E any](d *dom[E], l listAPI[E]) *seqInst[E] {
 	return &seqInst[E]{insName: "Add", delName: "Remove", ins: func(x E) { l.Add(x) }, delAt: l.Remove, values: l.Values,
 		marshal: l.MarshalJSON, unmarshal: l.UnmarshalJSON, rep: repOf(d, l)}
 }
-func fromStack[E comparable](d *dom[E], s stackAPI[E]) *seqInst[E] {
+func fromStack[E any](d *dom[E], s stackAPI[E]) *seqInst[E] {
 	return &seqInst[E]{insName: "Push", delName: "Pop", ins: s.Push, del: s.Pop, values: s.Values,
 		marshal: s.MarshalJSON, unmarshal: s.UnmarshalJSON, rep: repOf(d, s)}
 }
-func fromQueue[E comparable](d *dom[E], q queueAPI[E]) *seqInst[E] {
+func fromQueue[E any](d *dom[E], q queueAPI[E]) *seqInst[E] {
 	return &seqInst[E]{insName: "Enqueue", delName: "Dequeue", ins: q.Enqueue, del: q.Dequeue, values: q.Values,
 		marshal: q.MarshalJSON, unmarshal: q.UnmarshalJSON, rep: repOf(d, q)}
 }
-func fromHeap[E comparable](d *dom[E], h heapAPI[E]) *seqInst[E] {
+func fromHeap[E any](d *dom[E], h heapAPI[E]) *seqInst[E] {
 	return &seqInst[E]{insName: "Push", delName: "Pop", ins: func(x E) { h.Push(x) }, del: h.Pop, values: h.Values,
 		marshal: h.MarshalJSON, unmarshal: h.UnmarshalJSON, rep: repOf(d, h)}
 }
-func fromSet[E comparable](d *dom[E], s setAPI[E]) *seqInst[E] {
+func fromSet[E any](d *dom[E], s setAPI[E]) *seqInst[E] {
 	return &seqInst[E]{insName: "Add", delName: "Remove", ins: func(x E) { s.Add(x) }, delVal: func(x E) { s.Remove(x) }, values: s.Values,
 		marshal: s.MarshalJSON, unmarshal: s.UnmarshalJSON, rep: repOf(d, s)}
 }
 
 func constDisc(s string) func(int) string { return func(int) string { return s } }
 
-func seqKinds[E comparable](d *dom[E], cmp bcomparator.Comparator[E]) []seqKind[E] {
+// every array-like container whose element type is free (cmp: the comparator of the heap / priority queue / treeset)
+func seqKindsAny[E any](d *dom[E], cmp bcomparator.Comparator[E]) []seqKind[E] {
 	k := func(name, path, disc string, jrev bool, mk func(cap int) *seqInst[E]) seqKind[E] {
 		return seqKind[E]{name: name, path: path, disc: constDisc(disc), jrev: jrev, mk: mk}
 	}
@@ -325,10 +344,6 @@ func seqKinds[E comparable](d *dom[E], cmp bcomparator.Comparator[E]) []seqKind[
 		k("binaryheap.Safe", "PArray", "DHeap", false, func(int) *seqInst[E] { return fromHeap[E](d, binaryheap.NewSafeWith[E](cmp)) }),
 		k("priorityqueue", "PArray", "DHeap", false, func(int) *seqInst[E] { return fromQueue[E](d, priorityqueue.NewWith[E](cmp)) }),
 		k("priorityqueue.Safe", "PArray", "DHeap", false, func(int) *seqInst[E] { return fromQueue[E](d, priorityqueue.NewSafeWith[E](cmp)) }),
-		k("hashset", "PSetHash", "DSetHash", false, func(int) *seqInst[E] { return fromSet[E](d, hashset.New[E]()) }),
-		k("hashset.Safe", "PSetHash", "DSetHash", false, func(int) *seqInst[E] { return fromSet[E](d, hashset.VerifNewSafe[E]()) }),
-		k("linkedhashset", "PSetLinked", "DSetLinked", false, func(int) *seqInst[E] { return fromSet[E](d, linkedhashset.New[E]()) }),
-		k("linkedhashset.Safe", "PSetLinked", "DSetLinked", false, func(int) *seqInst[E] { return fromSet[E](d, linkedhashset.NewSafe[E]()) }),
 		k("treeset", "PSetTree", "DSetTree", false, func(int) *seqInst[E] { return fromSet[E](d, treeset.NewWith[E](cmp)) }),
 		k("treeset.Safe", "PSetTree", "DSetTree", false, func(int) *seqInst[E] { return fromSet[E](d, treeset.NewSafeWith[E](cmp)) }),
 		k("bslice.UnsafeAnyBSlice", "PLinked", "DList", false, func(int) *seqInst[E] {
@@ -349,9 +364,25 @@ func seqKinds[E comparable](d *dom[E], cmp bcomparator.Comparator[E]) []seqKind[
 	return ks
 }
 
+// the sets whose element type must be comparable (Go map keys)
+func seqKindsEq[E comparable](d *dom[E]) []seqKind[E] {
+	k := func(name, path, disc string, jrev bool, mk func(cap int) *seqInst[E]) seqKind[E] {
+		return seqKind[E]{name: name, path: path, disc: constDisc(disc), jrev: jrev, mk: mk}
+	}
+	return []seqKind[E]{
+		k("hashset", "PSetHash", "DSetHash", false, func(int) *seqInst[E] { return fromSet[E](d, hashset.New[E]()) }),
+		k("hashset.Safe", "PSetHash", "DSetHash", false, func(int) *seqInst[E] { return fromSet[E](d, hashset.VerifNewSafe[E]()) }),
+		k("linkedhashset", "PSetLinked", "DSetLinked", false, func(int) *seqInst[E] { return fromSet[E](d, linkedhashset.New[E]()) }),
+		k("linkedhashset.Safe", "PSetLinked", "DSetLinked", false, func(int) *seqInst[E] { return fromSet[E](d, linkedhashset.NewSafe[E]()) }),
+	}
+}
+func seqKinds[E comparable](d *dom[E], cmp bcomparator.Comparator[E]) []seqKind[E] {
+	return append(seqKindsAny[E](d, cmp), seqKindsEq[E](d)...)
+}
+
 // chooses one random operation on a sequence-like container: Coq qop term, step label, history text, and the call itself
 // (which returns the Coq term of the operation's result)
-func seqOp[E comparable](rng *vhlib.Rng, d *dom[E], c *seqInst[E], insBias int) (term, lab, h string, call func() string) {
+func seqOp[E any](rng *vhlib.Rng, d *dom[E], c *seqInst[E], insBias int) (term, lab, h string, call func() string) {
 	n := len(c.values())
 	r := rng.Intn(10)
 	switch {
@@ -374,7 +405,7 @@ func seqOp[E comparable](rng *vhlib.Rng, d *dom[E], c *seqInst[E], insBias int) 
 	}
 }
 
-func runSeq[E comparable](w *vhlib.Writer, rng *vhlib.Rng, d *dom[E], k seqKind[E]) {
+func runSeq[E any](w *vhlib.Writer, rng *vhlib.Rng, d *dom[E], k seqKind[E]) {
 	capn := 1 + rng.Intn(5)
 	src := k.mk(capn)
 	// source: arbitrary operation sequence, so that the internal layout varies
@@ -389,7 +420,7 @@ func runSeq[E comparable](w *vhlib.Writer, rng *vhlib.Rng, d *dom[E], k seqKind[
 	roundTripSeq(w, rng, d, k, capn, src, k.name+"["+d.tname+"]", hist)
 }
 
-func buildSeq[E comparable](rng *vhlib.Rng, d *dom[E], c *seqInst[E], nops, insBias int) (hist []string, ok bool) {
+func buildSeq[E any](rng *vhlib.Rng, d *dom[E], c *seqInst[E], nops, insBias int) (hist []string, ok bool) {
 	panicked, _ := vhlib.Recover(func() {
 		for i := 0; i < nops; i++ {
 			_, _, h, call := seqOp(rng, d, c, insBias)
@@ -403,7 +434,7 @@ func buildSeq[E comparable](rng *vhlib.Rng, d *dom[E], c *seqInst[E], nops, insB
 // A document written by one container (a ring of any capacity, or an array list) decoded into a fresh ring whose capacity is
 // smaller than, equal to or larger than the document's length: UnmarshalJSON enqueues the values one by one, so the ring must end
 // up with the last min(capacity, n) values, oldest first.
-func runRingCross[E comparable](w *vhlib.Writer, rng *vhlib.Rng, d *dom[E], ring, producer seqKind[E], mode int) {
+func runRingCross[E any](w *vhlib.Writer, rng *vhlib.Rng, d *dom[E], ring, producer seqKind[E], mode int) {
 	pcap := 1 + rng.Intn(8)
 	src := producer.mk(pcap)
 	src.ins(d.univ[rng.Intn(len(d.univ))]) // never the nil backing slice of an unused array list (written as null)
@@ -428,7 +459,7 @@ func runRingCross[E comparable](w *vhlib.Writer, rng *vhlib.Rng, d *dom[E], ring
 }
 
 // marshal src, decode into a fresh container of kind k (capacity capn), run further operations on it
-func roundTripSeq[E comparable](w *vhlib.Writer, rng *vhlib.Rng, d *dom[E], k seqKind[E], capn int, src *seqInst[E], label string, hist []string) {
+func roundTripSeq[E any](w *vhlib.Writer, rng *vhlib.Rng, d *dom[E], k seqKind[E], capn int, src *seqInst[E], label string, hist []string) {
 	srcVals := d.list(src.values())
 	var data []byte
 	var merr error
@@ -454,11 +485,15 @@ func roundTripSeq[E comparable](w *vhlib.Writer, rng *vhlib.Rng, d *dom[E], k se
 				twice = true
 			}
 			hist = append(hist, "UnmarshalJSON into a fresh container")
-			if !k.ring { // the circular buffer documents no Clear in UnmarshalJSON: decoding appends
+			// a decode target that already held something.  Not for the circular buffer (no Clear in UnmarshalJSON: decoding
+			// appends), and not for array-backed targets with non-scalar elements: json.Unmarshal(bytes, &l.elements) decodes
+			// INTO the old elements of the backing array (merging structs / maps, writing through pointers) - outside the
+			// property, which speaks of fresh targets; reported as an observation.
+			if !k.ring && (d.scalar || (k.path != "PArray" && !strings.HasPrefix(k.name, "bslice."))) {
 				dirty := k.mk(capn)
 				dp, _ := vhlib.Recover(func() {
 					for i := 1 + rng.Intn(4); i > 0; i-- {
-						dirty.ins(d.univ[rng.Intn(len(d.univ))])
+						dirty.ins(clone(d.univ[rng.Intn(len(d.univ))]))
 					}
 					if dirty.unmarshal(data) == nil {
 						dirtyVals = "(Some " + d.list(dirty.values()) + ")"
@@ -495,7 +530,7 @@ func roundTripSeq[E comparable](w *vhlib.Writer, rng *vhlib.Rng, d *dom[E], k se
 
 // ---------- map-like containers ----------
 
-type mapInst[K comparable, V comparable] struct {
+type mapInst[K comparable, V any] struct {
 	put       func(K, V)
 	del       func(K)
 	keys      func() []K
@@ -503,7 +538,7 @@ type mapInst[K comparable, V comparable] struct {
 	marshal   func() ([]byte, error)
 	unmarshal func([]byte) error
 }
-type mapKind[K comparable, V comparable] struct {
+type mapKind[K comparable, V any] struct {
 	name, disc string
 	mk         func() *mapInst[K, V]
 	wrapV      func(V) interface{} // how a value appears in the JSON (bcache wraps it)
@@ -517,11 +552,12 @@ type kvAPI[K any, V any] interface {
 	Get(K) (V, bool)
 }
 
-func fromKV[K comparable, V comparable](m kvAPI[K, V]) *mapInst[K, V] {
+func fromKV[K comparable, V any](m kvAPI[K, V]) *mapInst[K, V] {
 	return &mapInst[K, V]{put: m.Put, del: m.Remove, keys: m.Keys, get: m.Get, marshal: m.MarshalJSON, unmarshal: m.UnmarshalJSON}
 }
 
-func mapKinds[K comparable, V comparable](dk *dom[K], kc bcomparator.Comparator[K], vc bcomparator.Comparator[V]) []mapKind[K, V] {
+// every object-like container whose value type is free
+func mapKindsAny[K comparable, V any](dk *dom[K], kc bcomparator.Comparator[K], vc bcomparator.Comparator[V]) []mapKind[K, V] {
 	k := func(name, disc string, mk func() *mapInst[K, V]) mapKind[K, V] {
 		return mapKind[K, V]{name: name, disc: disc, mk: mk}
 	}
@@ -538,8 +574,6 @@ func mapKinds[K comparable, V comparable](dk *dom[K], kc bcomparator.Comparator[
 		k("avltree.Safe", "MTree", func() *mapInst[K, V] { return fromKV[K, V](avltree.NewSafeWith[K, V](kc)) }),
 		k("btree", "MTree", func() *mapInst[K, V] { return fromKV[K, V](btree.NewWith[K, V](3, kc)) }),
 		k("btree.Safe", "MTree", func() *mapInst[K, V] { return fromKV[K, V](btree.NewSafeWith[K, V](4, kc)) }),
-		k("hashbidimap", "MBidiHash", func() *mapInst[K, V] { return fromKV[K, V](hashbidimap.New[K, V]()) }),
-		k("hashbidimap.Safe", "MBidiHash", func() *mapInst[K, V] { return fromKV[K, V](hashbidimap.NewSafe[K, V]()) }),
 		k("treebidimap", "MBidiTree", func() *mapInst[K, V] { return fromKV[K, V](treebidimap.NewWith[K, V](kc, vc)) }),
 		k("treebidimap.Safe", "MBidiTree", func() *mapInst[K, V] { return fromKV[K, V](treebidimap.NewSafeWith[K, V](kc, vc)) }),
 		k("bmap.UnsafeAnyBMap", "MHash", func() *mapInst[K, V] {
@@ -574,7 +608,21 @@ func mapKinds[K comparable, V comparable](dk *dom[K], kc bcomparator.Comparator[
 	return append(ks, bc)
 }
 
-func pairsOf[K comparable, V comparable](dk *dom[K], dv *dom[V], m *mapInst[K, V]) string {
+// hashbidimap: values are Go map keys too
+func mapKindsEq[K comparable, V comparable]() []mapKind[K, V] {
+	k := func(name, disc string, mk func() *mapInst[K, V]) mapKind[K, V] {
+		return mapKind[K, V]{name: name, disc: disc, mk: mk}
+	}
+	return []mapKind[K, V]{
+		k("hashbidimap", "MBidiHash", func() *mapInst[K, V] { return fromKV[K, V](hashbidimap.New[K, V]()) }),
+		k("hashbidimap.Safe", "MBidiHash", func() *mapInst[K, V] { return fromKV[K, V](hashbidimap.NewSafe[K, V]()) }),
+	}
+}
+func mapKinds[K comparable, V comparable](dk *dom[K], kc bcomparator.Comparator[K], vc bcomparator.Comparator[V]) []mapKind[K, V] {
+	return append(mapKindsAny[K, V](dk, kc, vc), mapKindsEq[K, V]()...)
+}
+
+func pairsOf[K comparable, V any](dk *dom[K], dv *dom[V], m *mapInst[K, V]) string {
 	var it []string
 	for _, k := range m.keys() {
 		v, _ := m.get(k)
@@ -583,7 +631,7 @@ func pairsOf[K comparable, V comparable](dk *dom[K], dv *dom[V], m *mapInst[K, V
 	return vhlib.List(it)
 }
 
-func mapOp[K comparable, V comparable](rng *vhlib.Rng, dk *dom[K], dv *dom[V], m *mapInst[K, V], putBias int) (term, lab, h string, call func()) {
+func mapOp[K comparable, V any](rng *vhlib.Rng, dk *dom[K], dv *dom[V], m *mapInst[K, V], putBias int) (term, lab, h string, call func()) {
 	k := rng.Intn(len(dk.univ))
 	if rng.Intn(10) < putBias {
 		v := rng.Intn(len(dv.univ))
@@ -592,7 +640,7 @@ func mapOp[K comparable, V comparable](rng *vhlib.Rng, dk *dom[K], dv *dom[V], m
 	return fmt.Sprintf("PDel %d", k), "Remove", fmt.Sprintf("Remove(%s)", dk.desc[k]), func() { m.del(dk.univ[k]) }
 }
 
-func runMap[K comparable, V comparable](w *vhlib.Writer, rng *vhlib.Rng, dk *dom[K], dv *dom[V], k mapKind[K, V], nops int) {
+func runMap[K comparable, V any](w *vhlib.Writer, rng *vhlib.Rng, dk *dom[K], dv *dom[V], k mapKind[K, V], nops int) {
 	label := k.name + "[" + dk.tname + "," + dv.tname + "]"
 	var hist []string
 	src := k.mk()
@@ -638,7 +686,7 @@ func runMap[K comparable, V comparable](w *vhlib.Writer, rng *vhlib.Rng, dk *dom
 				dirty := k.mk()
 				vhlib.Recover(func() {
 					for i := 1 + rng.Intn(4); i > 0; i-- {
-						dirty.put(dk.univ[rng.Intn(len(dk.univ))], dv.univ[rng.Intn(len(dv.univ))])
+						dirty.put(dk.univ[rng.Intn(len(dk.univ))], clone(dv.univ[rng.Intn(len(dv.univ))]))
 					}
 					if dirty.unmarshal(data) == nil {
 						dirtyPairs = "(Some " + pairsOf(dk, dv, dirty) + ")"
@@ -667,12 +715,12 @@ func runMap[K comparable, V comparable](w *vhlib.Writer, rng *vhlib.Rng, dk *dom
 		map[string]interface{}{"container": label, "keys": dk.desc, "values": dv.desc, "ops": hist, "json": string(data)})
 }
 
-func seqAll[E comparable](w *vhlib.Writer, rng *vhlib.Rng, mkDom func() *dom[E], cmp bcomparator.Comparator[E], reps int) {
-	n := len(seqKinds[E](mkDom(), cmp))
+func seqAll[E any](w *vhlib.Writer, rng *vhlib.Rng, mkDom func() *dom[E], kinds func(d *dom[E]) []seqKind[E], reps int) {
+	n := len(kinds(mkDom()))
 	for i := 0; i < reps; i++ {
 		for j := 0; j < n; j++ {
 			d := mkDom()
-			runSeq(w, rng, d, seqKinds[E](d, cmp)[j])
+			runSeq(w, rng, d, kinds(d)[j])
 		}
 		// ring buffers fed with documents of another length (zero-valued elements included: Dequeue is repaired, 0021)
 		for mode := 0; mode < 3; mode++ {
@@ -680,7 +728,7 @@ func seqAll[E comparable](w *vhlib.Writer, rng *vhlib.Rng, mkDom func() *dom[E],
 				for _, fromList := range []bool{false, true} {
 					d := mkDom()
 					var ring, prod seqKind[E]
-					for _, k := range seqKinds[E](d, cmp) {
+					for _, k := range kinds(d) {
 						if k.ring && strings.HasSuffix(k.name, ".Safe") == safe {
 							ring = k
 						}
@@ -688,21 +736,74 @@ func seqAll[E comparable](w *vhlib.Writer, rng *vhlib.Rng, mkDom func() *dom[E],
 							prod = k
 						}
 					}
-					runRingCross(w, rng, d, ring, prod, mode)
+					if ring.mk != nil && prod.mk != nil {
+						runRingCross(w, rng, d, ring, prod, mode)
+					}
 				}
 			}
 		}
 	}
 }
-func mapAll[K comparable, V comparable](w *vhlib.Writer, rng *vhlib.Rng, mkK func() *dom[K], mkV func() *dom[V],
-	kc bcomparator.Comparator[K], vc bcomparator.Comparator[V], reps int) {
+func mapAll[K comparable, V any](w *vhlib.Writer, rng *vhlib.Rng, mkK func() *dom[K], mkV func() *dom[V],
+	kinds func(dk *dom[K]) []mapKind[K, V], reps int) {
+	n := len(kinds(mkK()))
 	for i := 0; i < reps; i++ {
-		names := mapKinds[K, V](mkK(), kc, vc)
-		for j := range names {
+		for j := 0; j < n; j++ {
 			dk, dv := mkK(), mkV()
-			runMap(w, rng, dk, dv, mapKinds[K, V](dk, kc, vc)[j], -1)
+			runMap(w, rng, dk, dv, kinds(dk)[j], -1)
 		}
 	}
+}
+
+// ---------- element / value types that json.Unmarshal does not fully overwrite ----------
+// Decoding into a variable that already holds one of these MERGES (struct with omitempty fields, map), reuses storage (slice)
+// or writes through (pointer): a decoder that recycles its variables, or decodes into live elements, restores stale values.
+// The universes make neighbours differ in WHICH fields are zero / how long they are.
+
+type S struct {
+	A int    `json:"a,omitempty"`
+	B string `json:"b,omitempty"`
+}
+
+func ip(v int) *int { return &v }
+
+func sPool() []S {
+	return []S{{1, ""}, {0, "x"}, {2, "y"}, {0, ""}, {1, "x"}, {3, ""}, {0, "y"}, {2, ""}}
+}
+func slPool() [][]int {
+	return [][]int{{1, 2, 3}, {9}, {}, nil, {4, 5}, {7, 7, 7, 7}, {0}, {1, 2}}
+}
+func ptrPool() []*int { return []*int{nil, ip(5), ip(-2), ip(9), ip(7), ip(12)} }
+func mpPool() []map[string]int {
+	return []map[string]int{{"a": 1}, {"b": 2}, {"a": 3, "b": 4}, nil, {"c": 5}, {"a": 1, "c": 5}, {"b": 1}}
+}
+
+// a total order on deep content (the user comparator of the heaps, tree sets and tree bidi-maps over these types)
+func cmpByContent[E any](a, b E) int { return strings.Compare(contentKey(a), contentKey(b)) }
+
+// u distinct values of the pool, numbered in the comparator's order
+func poolDom[E any](rng *vhlib.Rng, tname string, pool []E, u int) *dom[E] {
+	p := rng.Perm(len(pool))
+	var univ []E
+	for i := 0; i < u && i < len(pool); i++ {
+		univ = append(univ, pool[p[i]])
+	}
+	sort.Slice(univ, func(i, j int) bool { return cmpByContent(univ[i], univ[j]) < 0 })
+	d := newDom(tname, univ)
+	d.scalar = false
+	for i, x := range univ {
+		d.desc[i] = contentKey(x)
+	}
+	return d
+}
+
+// a deep copy (what is put into a decode target that is not fresh, so that a decoder writing through old pointers / into
+// old slices cannot reach the universe)
+func clone[E any](x E) E {
+	var y E
+	b, _ := json.Marshal(x)
+	_ = json.Unmarshal(b, &y)
+	return y
 }
 
 func main() {
@@ -729,16 +830,47 @@ func main() {
 		}
 	}
 
-	seqAll(w, rng, func() *dom[int] { return intDom(rng, usize(), false) }, ic, reps)
-	seqAll(w, rng, func() *dom[string] { return strDom(rng, usize(), false) }, sc, reps)
+	seqAll(w, rng, func() *dom[int] { return intDom(rng, usize(), false) }, func(d *dom[int]) []seqKind[int] { return seqKinds(d, ic) }, reps)
+	seqAll(w, rng, func() *dom[string] { return strDom(rng, usize(), false) }, func(d *dom[string]) []seqKind[string] { return seqKinds(d, sc) }, reps)
 
-	mapAll(w, rng, func() *dom[int] { return intDom(rng, usize(), false) }, func() *dom[int] { return intDom(rng, vsize(), false) }, ic, ic, reps)
-	mapAll(w, rng, func() *dom[string] { return strDom(rng, usize(), false) }, func() *dom[string] { return strDom(rng, vsize()+2, false) }, sc, sc, reps)
-	mapAll(w, rng, func() *dom[string] { return strDom(rng, usize(), false) }, func() *dom[int] { return intDom(rng, vsize(), false) }, sc, ic, reps)
-	mapAll(w, rng, func() *dom[int] { return intDom(rng, usize(), false) }, func() *dom[string] { return strDom(rng, vsize()+2, false) }, ic, sc, reps)
+	mapAll(w, rng, func() *dom[int] { return intDom(rng, usize(), false) }, func() *dom[int] { return intDom(rng, vsize(), false) }, func(dk *dom[int]) []mapKind[int, int] { return mapKinds[int, int](dk, ic, ic) }, reps)
+	mapAll(w, rng, func() *dom[string] { return strDom(rng, usize(), false) }, func() *dom[string] { return strDom(rng, vsize()+2, false) }, func(dk *dom[string]) []mapKind[string, string] { return mapKinds[string, string](dk, sc, sc) }, reps)
+	mapAll(w, rng, func() *dom[string] { return strDom(rng, usize(), false) }, func() *dom[int] { return intDom(rng, vsize(), false) }, func(dk *dom[string]) []mapKind[string, int] { return mapKinds[string, int](dk, sc, ic) }, reps)
+	mapAll(w, rng, func() *dom[int] { return intDom(rng, usize(), false) }, func() *dom[string] { return strDom(rng, vsize()+2, false) }, func(dk *dom[int]) []mapKind[int, string] { return mapKinds[int, string](dk, ic, sc) }, reps)
+
+	// ---- element / value types that a decoder must not recycle: struct with omitempty fields, slice, pointer, map ----
+	nreps := reps/5 + 1
+	seqAll(w, rng, func() *dom[S] { return poolDom(rng, "struct", sPool(), usize()) },
+		func(d *dom[S]) []seqKind[S] { return seqKinds(d, cmpByContent[S]) }, nreps)
+	seqAll(w, rng, func() *dom[[]int] { return poolDom(rng, "slice", slPool(), usize()) },
+		func(d *dom[[]int]) []seqKind[[]int] { return seqKindsAny(d, cmpByContent[[]int]) }, nreps)
+	seqAll(w, rng, func() *dom[*int] { return poolDom(rng, "pointer", ptrPool(), usize()) },
+		func(d *dom[*int]) []seqKind[*int] { return seqKindsAny(d, cmpByContent[*int]) }, nreps)
+	seqAll(w, rng, func() *dom[map[string]int] { return poolDom(rng, "map", mpPool(), usize()) },
+		func(d *dom[map[string]int]) []seqKind[map[string]int] {
+			return seqKindsAny(d, cmpByContent[map[string]int])
+		}, nreps)
+	strK := func() *dom[string] { return strDom(rng, usize(), false) }
+	intK := func() *dom[int] { return intDom(rng, usize(), false) }
+	mapAll(w, rng, strK, func() *dom[S] { return poolDom(rng, "struct", sPool(), vsize()+2) },
+		func(dk *dom[string]) []mapKind[string, S] { return mapKinds[string, S](dk, sc, cmpByContent[S]) }, nreps)
+	mapAll(w, rng, intK, func() *dom[S] { return poolDom(rng, "struct", sPool(), vsize()+2) },
+		func(dk *dom[int]) []mapKind[int, S] { return mapKinds[int, S](dk, ic, cmpByContent[S]) }, nreps)
+	mapAll(w, rng, intK, func() *dom[[]int] { return poolDom(rng, "slice", slPool(), vsize()+2) },
+		func(dk *dom[int]) []mapKind[int, []int] { return mapKindsAny[int, []int](dk, ic, cmpByContent[[]int]) }, nreps)
+	mapAll(w, rng, strK, func() *dom[*int] { return poolDom(rng, "pointer", ptrPool(), vsize()+2) },
+		func(dk *dom[string]) []mapKind[string, *int] {
+			return mapKindsAny[string, *int](dk, sc, cmpByContent[*int])
+		}, nreps)
+	mapAll(w, rng, intK, func() *dom[map[string]int] { return poolDom(rng, "map", mpPool(), vsize()+2) },
+		func(dk *dom[int]) []mapKind[int, map[string]int] {
+			return mapKindsAny[int, map[string]int](dk, ic, cmpByContent[map[string]int])
+		}, nreps)
 
 	w.Close(o, "one case = one container (every type with MarshalJSON/UnmarshalJSON, plain and Safe, plus bslice/bmap/bcache Marshal/Unmarshal) built by a random "+
 		"operation sequence over a small universe of int or string elements/keys/values (strings with quotes, backslashes, non-ASCII, JSON-looking text, values that are "+
+		"also keys) or of struct-with-omitempty-fields / slice / pointer / map elements and values (numbered by deep content; neighbours differ in which fields are zero and how long they are; "+
+		"heaps, tree sets and tree bidi-maps order them with a user comparator on the content) (strings: "+
 		"also keys), marshalled, validated with json.Valid, parsed, decoded into a fresh container of the same type, re-marshalled, and driven by 3-8 further operations "+
 		"whose results and resulting contents are recorded; ring buffers of capacity 1-5 partially filled, full and wrapped (zero-valued elements included), and ring "+
 		"buffers decoding documents written by a ring of another capacity or by an array list, longer than / as long as / shorter than the target capacity; distinct = distinct case terms; "+
@@ -746,7 +878,7 @@ func main() {
 }
 
 // a map with exactly the given bindings (indexes into the universes), in this insertion order
-func fixedMap[K comparable, V comparable](w *vhlib.Writer, dk *dom[K], dv *dom[V], k mapKind[K, V], kvs [][2]int) {
+func fixedMap[K comparable, V any](w *vhlib.Writer, dk *dom[K], dv *dom[V], k mapKind[K, V], kvs [][2]int) {
 	orig := k.mk
 	first := true
 	k.mk = func() *mapInst[K, V] {
